@@ -171,6 +171,11 @@ def flagsEncode (f : UInt8) : Bytes := ulebEncode 2 ++ [0x02, 0x80 ||| f]
 def flagsParseBytes (bytes : Bytes) : UInt8 :=
   bytes.foldl (fun acc byte => if byte &&& 0x80 ≠ 0 then acc ||| (byte &&& 0x7f) else acc) 0
 
+/-- the optional trailing flags section -/
+def flagsSection : Option UInt8 → Bytes
+  | some f => flagsEncode f
+  | none => []
+
 /-- one element of the `have` section as written by `Message::encode` -/
 def haveEncode (dbg : Bool) (h : Have) : Outcome MErr Bytes :=
   match encodeHashes dbg h.lastSync with
@@ -210,7 +215,7 @@ def messageEncode (dbg : Bool) (m : Message) : Outcome MErr Bytes :=
   | .ok vb =>
     .ok (m.version.encode :: (hb ++ nb ++ (ulebEncode m.have_.length ++ vb)
           ++ encodeMany chunkEncode m.changes
-          ++ (match m.flags with | some f => flagsEncode f | none => [])))
+          ++ flagsSection m.flags))
 
 /-- `parse_have`: the Bloom filter is parsed from exactly the length-prefixed bytes (what is left
     over inside them is ignored) -/
